@@ -8,7 +8,9 @@ package main
 // LoadField maps canonical → actual; FieldName / loadedField map actual → canonical.
 
 import (
+	"fmt"
 	"go/types"
+	"os"
 	"strings"
 
 	"golang.org/x/tools/go/ssa"
@@ -17,7 +19,7 @@ import (
 type roleSpec struct {
 	pkg, typ, canonical string
 	fn                  string // function whose store identifies the field
-	param               int    // index into fn.Params of the stored parameter; -1 = the only field stored by fn; -2 = unique chan field of typ
+	param               int    // index into fn.Params of the stored parameter; -1 = the only field stored by fn; -2 = unique chan field of typ; -3 = unique field whose type is (a pointer to) the type canonically named fn
 }
 
 var roleTable = []roleSpec{
@@ -75,6 +77,7 @@ var roleTable = []roleSpec{
 	{"policy", "BaseFailurePolicy", "onFailure", "policy.(*BaseFailurePolicy).OnFailure", 1},
 	{"policy", "BaseFailurePolicy", "failureConditions", "policy.(*BaseFailurePolicy).HandleIf", 1},
 	{"policy", "BaseAbortablePolicy", "abortConditions", "policy.(*BaseAbortablePolicy).AbortOnResult", -1},
+	{"failsafe", "executionResult", "execution", "execution", -3},
 	{"failsafehttp", "roundTripper", "next", "failsafehttp.NewRoundTripperWithExecutor", 0},
 	{"failsafehttp", "roundTripper", "executor", "failsafehttp.NewRoundTripperWithExecutor", 1},
 	{"failsafehttp", "Request", "request", "failsafehttp.NewRequestWithExecutor", 0},
@@ -156,6 +159,24 @@ func resolveRoles(p *Program) {
 	for _, r := range roleTable {
 		actual := ""
 		switch {
+		case r.param == -3:
+			rel := r.pkg
+			if rel == "failsafe" {
+				rel = ""
+			}
+			for _, f := range p.structFields(rel, r.typ) {
+				t := f.Type()
+				if pt, isP := t.(*types.Pointer); isP {
+					t = pt.Elem()
+				}
+				if n, isN := t.(*types.Named); isN && typeCanonName(n.Obj()) == r.fn && !f.Embedded() {
+					if actual != "" {
+						actual = "?"
+					} else {
+						actual = f.Name()
+					}
+				}
+			}
 		case r.param == -2:
 			rel := r.pkg
 			if rel == "failsafe" {
@@ -287,10 +308,246 @@ func typeCanonName(o *types.TypeName) string {
 
 func resolveTypeRoles(p *Program) {
 	typeCanon = map[*types.TypeName]string{}
-	for _, pkg := range []string{"retrypolicy", "circuitbreaker", "ratelimiter", "bulkhead", "timeout", "hedgepolicy", "fallback", "cachepolicy"} {
-		if n := execNamedOf(p, pkg); n != nil && n.Obj().Name() != "executor" {
-			if pk := p.ByPath[p.pkgPath(pkg)]; pk != nil && pk.Types.Scope().Lookup("executor") == nil {
-				typeCanon[n.Obj()] = "executor"
+	// set registers `named` under the canonical name unless a type of that name exists in its package
+	set := func(named *types.Named, canon string) {
+		if named == nil || named.Obj().Name() == canon || named.Obj().Pkg() == nil {
+			return
+		}
+		if named.Obj().Pkg().Scope().Lookup(canon) != nil {
+			return
+		}
+		typeCanon[named.Obj()] = canon
+	}
+	policyPkgs := []string{"retrypolicy", "circuitbreaker", "ratelimiter", "bulkhead", "timeout", "hedgepolicy", "fallback", "cachepolicy"}
+	for _, pkg := range policyPkgs {
+		set(execNamedOf(p, pkg), "executor")
+	}
+	// unexported structs / interfaces known by the exported interface they implement or by their place in the design
+	structsOf := func(rel string, pred func(n *types.Named, s *types.Struct) bool) []*types.Named {
+		var out []*types.Named
+		pk := p.ByPath[p.pkgPath(rel)]
+		if pk == nil {
+			return nil
+		}
+		sc := pk.Types.Scope()
+		for _, nm := range sc.Names() {
+			tn, ok := sc.Lookup(nm).(*types.TypeName)
+			if !ok || tn.IsAlias() {
+				continue
+			}
+			named, ok := tn.Type().(*types.Named)
+			if !ok {
+				continue
+			}
+			s, ok := named.Underlying().(*types.Struct)
+			if !ok {
+				continue
+			}
+			if pred(named, s) {
+				out = append(out, named)
+			}
+		}
+		return out
+	}
+	implements := func(named *types.Named, ifaceRel, ifaceName string) bool {
+		in := p.NamedType(ifaceRel, ifaceName)
+		if in == nil {
+			return false
+		}
+		it := instantiateAny(in)
+		inst := instantiateAny(named)
+		if it == nil || inst == nil {
+			return false
+		}
+		ii, ok := it.Underlying().(*types.Interface)
+		if !ok {
+			return false
+		}
+		return types.Implements(types.NewPointer(inst), ii) || types.Implements(inst, ii)
+	}
+	// the policy struct declares ToExecutor itself (its executor only inherits it through embedding)
+	declaresToExecutor := func(n *types.Named, _ *types.Struct) bool {
+		for i := 0; i < n.NumMethods(); i++ {
+			if n.Method(i).Name() == "ToExecutor" {
+				return true
+			}
+		}
+		return false
+	}
+	one := func(ns []*types.Named) *types.Named {
+		if len(ns) == 1 {
+			return ns[0]
+		}
+		return nil
+	}
+	set(one(structsOf("", func(n *types.Named, _ *types.Struct) bool { return implements(n, "policy", "ExecutionInternal") })), "execution")
+	set(one(structsOf("", func(n *types.Named, _ *types.Struct) bool { return implements(n, "", "ExecutionResult") })), "executionResult")
+	set(one(structsOf("", func(n *types.Named, _ *types.Struct) bool { return implements(n, "", "Executor") })), "executor")
+	policyName := map[string]string{"retrypolicy": "retryPolicy", "hedgepolicy": "hedgePolicy", "fallback": "fallback", "timeout": "timeout",
+		"cachepolicy": "cachePolicy", "ratelimiter": "rateLimiter", "bulkhead": "bulkhead", "circuitbreaker": "circuitBreaker"}
+	for _, pkg := range policyPkgs {
+		if debugRoles {
+			for _, x := range structsOf(pkg, func(n *types.Named, _ *types.Struct) bool { return implements(n, "", "Policy") }) {
+				fmt.Println("policy struct candidate", pkg, x.Obj().Name())
+			}
+		}
+		set(one(structsOf(pkg, declaresToExecutor)), policyName[pkg])
+		// the builder's configuration struct: the struct with builder methods (methods returning an exported …Builder)
+		set(one(structsOf(pkg, func(n *types.Named, _ *types.Struct) bool {
+			ms := types.NewMethodSet(types.NewPointer(n))
+			for i := 0; i < ms.Len(); i++ {
+				if f, ok := ms.At(i).Obj().(*types.Func); ok && f.Name() == "Build" && f.Pkg() == n.Obj().Pkg() {
+					if rn := namedOfPtr(f.Type().(*types.Signature).Recv().Type()); rn != nil && rn.Obj() == n.Obj() {
+						return true
+					}
+				}
+			}
+			return false
+		})), "config")
+	}
+	// circuit breaker: state interface = type of the breaker's only interface-typed field declared in this package;
+	// the three states by the constant their state() method returns; stats interface = the interface the state
+	// interface embeds; the two stats implementations by whether they keep time buckets (a slice field)
+	if cb := one(structsOf("circuitbreaker", declaresToExecutor)); cb != nil {
+		var stateIface *types.Named
+		s := cb.Underlying().(*types.Struct)
+		for i := 0; i < s.NumFields(); i++ {
+			if fn, ok := s.Field(i).Type().(*types.Named); ok && fn.Obj().Pkg() == cb.Obj().Pkg() {
+				if _, isI := fn.Underlying().(*types.Interface); isI {
+					stateIface = fn.Origin()
+				}
+			}
+		}
+		if stateIface != nil {
+			set(stateIface, "circuitState")
+			var statsIface *types.Named
+			it := stateIface.Underlying().(*types.Interface)
+			for i := 0; i < it.NumEmbeddeds(); i++ {
+				if en, ok := it.EmbeddedType(i).(*types.Named); ok && en.Obj().Pkg() == cb.Obj().Pkg() {
+					statsIface = en
+				}
+			}
+			set(statsIface, "stats")
+			canonState := map[string]string{"ClosedState": "closedState", "OpenState": "openState", "HalfOpenState": "halfOpenState"}
+			for _, st := range structsOf("circuitbreaker", func(n *types.Named, _ *types.Struct) bool {
+				inst := instantiateAny(n)
+				ii, ok := instantiateAny(stateIface).Underlying().(*types.Interface)
+				return ok && inst != nil && types.Implements(types.NewPointer(inst), ii)
+			}) {
+				// the method returning State
+				ms := types.NewMethodSet(types.NewPointer(st))
+				for i := 0; i < ms.Len(); i++ {
+					f, ok := ms.At(i).Obj().(*types.Func)
+					if !ok {
+						continue
+					}
+					sig := f.Type().(*types.Signature)
+					if sig.Params().Len() != 0 || sig.Results().Len() != 1 {
+						continue
+					}
+					if rn, ok := sig.Results().At(0).Type().(*types.Named); !ok || rn.Obj().Name() != "State" {
+						continue
+					}
+					fn := p.Prog.FuncValue(f.Origin())
+					if fn == nil || len(fn.Blocks) == 0 {
+						continue
+					}
+					for _, b := range fn.Blocks {
+						for _, in := range b.Instrs {
+							if r, ok := in.(*ssa.Return); ok && len(r.Results) == 1 {
+								if k, ok := r.Results[0].(*ssa.Const); ok && k.Value != nil {
+									for cname, canon := range canonState {
+										if o, ok := cb.Obj().Pkg().Scope().Lookup(cname).(*types.Const); ok && o.Val().ExactString() == k.Value.ExactString() {
+											set(st, canon)
+										}
+									}
+								}
+							}
+						}
+					}
+				}
+			}
+			if statsIface != nil {
+				for _, st := range structsOf("circuitbreaker", func(n *types.Named, s *types.Struct) bool {
+					if _, isState := typeCanon[n.Obj()]; isState || n.Obj().Name() == "closedState" || n.Obj().Name() == "openState" || n.Obj().Name() == "halfOpenState" {
+						return false
+					}
+					ii, ok := statsIface.Underlying().(*types.Interface)
+					if !ok || !types.Implements(types.NewPointer(n), ii) {
+						return false
+					}
+					// not one of the states (they embed stats)
+					for i := 0; i < s.NumFields(); i++ {
+						if s.Field(i).Embedded() {
+							return false
+						}
+					}
+					return true
+				}) {
+					timed := false
+					s := st.Underlying().(*types.Struct)
+					for i := 0; i < s.NumFields(); i++ {
+						if sl, ok := s.Field(i).Type().Underlying().(*types.Slice); ok {
+							if _, isStruct := sl.Elem().Underlying().(*types.Struct); isStruct {
+								timed = true
+							}
+						}
+					}
+					if timed {
+						set(st, "timedStats")
+					} else {
+						set(st, "countingStats")
+					}
+				}
+			}
+		}
+	}
+	// rate limiter: stats interface = the limiter's interface-typed field; bursty = the implementation with a plain
+	// int permit balance, smooth = the other
+	if rl := one(structsOf("ratelimiter", declaresToExecutor)); rl != nil {
+		var statsIface *types.Named
+		s := rl.Underlying().(*types.Struct)
+		for i := 0; i < s.NumFields(); i++ {
+			if fn, ok := s.Field(i).Type().(*types.Named); ok && fn.Obj().Pkg() == rl.Obj().Pkg() {
+				if _, isI := fn.Underlying().(*types.Interface); isI {
+					statsIface = fn
+				}
+			}
+		}
+		// the interface may also be reached through the embedded config
+		if statsIface == nil {
+			if pk := p.ByPath[p.pkgPath("ratelimiter")]; pk != nil {
+				for _, nm := range pk.Types.Scope().Names() {
+					if tn, ok := pk.Types.Scope().Lookup(nm).(*types.TypeName); ok && !tn.Exported() {
+						if n, ok := tn.Type().(*types.Named); ok {
+							if _, isI := n.Underlying().(*types.Interface); isI {
+								statsIface = n
+							}
+						}
+					}
+				}
+			}
+		}
+		if statsIface != nil {
+			set(statsIface, "stats")
+			if ii, ok := statsIface.Underlying().(*types.Interface); ok {
+				for _, st := range structsOf("ratelimiter", func(n *types.Named, _ *types.Struct) bool {
+					inst := instantiateAny(n)
+					return inst != nil && types.Implements(types.NewPointer(inst), ii)
+				}) {
+					bursty := false
+					ss := st.Underlying().(*types.Struct)
+					for i := 0; i < ss.NumFields(); i++ {
+						if b, ok := ss.Field(i).Type().(*types.Basic); ok && b.Kind() == types.Int {
+							bursty = true
+						}
+					}
+					if bursty {
+						set(st, "burstyStats")
+					} else {
+						set(st, "smoothStats")
+					}
+				}
 			}
 		}
 	}
@@ -412,7 +669,7 @@ func recvNamed(f *ssa.Function) string {
 		return ""
 	}
 	if n := namedOfPtr(f.Signature.Recv().Type()); n != nil {
-		return n.Obj().Name()
+		return typeCanonName(n.Obj())
 	}
 	return ""
 }
@@ -597,4 +854,12 @@ func canonName(fn *ssa.Function) string {
 		return c
 	}
 	return fn.Name()
+}
+
+var debugRoles = os.Getenv("FSCHECK_DEBUG_ROLES") != ""
+
+func debugTypeRoles() {
+	for o, c := range typeCanon {
+		fmt.Printf("typeCanon %s.%s -> %s\n", o.Pkg().Name(), o.Name(), c)
+	}
 }
